@@ -69,10 +69,15 @@ pub fn exec(case: &Value) -> Value {
         }
     });
     let sub = Texture::from(atlas.slice((ox..ox + w, oy..oy + h)));
+    // a region of a region: a tile of the atlas one row higher than the texture, then the strip of the
+    // tile that spans all of its columns (so that the inner view is as wide as its non-contiguous parent)
+    let tile = atlas.slice((ox..ox + w, oy - 1..oy + h));
+    let nested = Texture::from(tile.slice((.., 1..h + 1)));
     for rel in [false, true] {
         let (cu, cv) = if rel { (u / w as f32, v / h as f32) } else { (u, v) };
         sample_all(&mut out, &key, &owned, w, h, 0, cu, cv, rel);
         sample_all(&mut out, &key, &sub, w, h, 1, cu, cv, rel);
+        sample_all(&mut out, &key, &nested, w, h, 2, cu, cv, rel);
     }
     Value::Array(out)
 }
@@ -89,7 +94,9 @@ pub fn gen(args: &Args, out: &mut dyn Write) {
             (rng.range(1, 9) as u32, rng.range(1, 7) as u32)
         };
         let mut coord = |rng: &mut Rng, n: u32| -> f32 {
-            match rng.below(10) {
+            match rng.below(11) {
+                // a hair above / below a texel edge (closer than a 16.16 fixed-point step of the relative coordinate)
+                10 => rng.range(0, n as i64) as f32 + *rng.pick(&[2e-6f32, 1e-5, 6e-5, -2e-6, -1e-5]) * n as f32,
                 // arbitrary bit patterns: every class of f32
                 0 | 1 => f32::from_bits(rng.next() as u32),
                 // near the texture
